@@ -4,6 +4,9 @@
    concatenating everything at once. *)
 From Eino Require Import Base.Util Model.Concat Proofs.Concat.
 
+Section User.
+Context {U : UserFn} {L : UserLaw}.
+
 (* ------------------------------------------------------------------ results *)
 
 (* "equal values or both fail" *)
@@ -444,13 +447,31 @@ Proof.
 Qed.
 
 Lemma typed_other f tag vs :
+  ufn tag = None ->
   vs <> [] -> same_types (TOther tag) vs = true ->
   concat_typed f (TOther tag) vs = single_nonzero (COther tag 0) vs.
 Proof.
-  intros Hne Hs. destruct vs as [|v [|w l]]; [congruence| |reflexivity].
-  cbn in Hs. destruct v; cbn in Hs; try discriminate.
-  rewrite andb_true_r in Hs. apply N.eqb_eq in Hs. subst tag0.
-  unfold single_nonzero. cbn. destruct (N.eqb_spec payload 0); subst; reflexivity.
+  intros Hu Hne Hs. destruct vs as [|v [|w l]]; [congruence| |].
+  - cbn in Hs. destruct v; cbn in Hs; try discriminate.
+    rewrite andb_true_r in Hs. apply N.eqb_eq in Hs. subst tag0.
+    unfold single_nonzero. cbn. destruct (N.eqb_spec payload 0); subst; reflexivity.
+  - unfold concat_typed. cbn [registered user_registered]. rewrite Hu. reflexivity.
+Qed.
+
+(* a type with a function registered by the application *)
+Lemma typed_user f tag g v w l :
+  ufn tag = Some g ->
+  concat_typed f (TOther tag) (v :: w :: l) = res_map (COther tag) (g (payloads (v :: w :: l))).
+Proof. intros Hu. unfold concat_typed. cbn [registered user_registered]. rewrite Hu. reflexivity. Qed.
+
+Lemma payloads_app a b : payloads (a ++ b) = payloads a ++ payloads b.
+Proof. unfold payloads. apply flat_map_app. Qed.
+
+Lemma payloads_length tag vs : same_types (TOther tag) vs = true -> List.length (payloads vs) = List.length vs.
+Proof.
+  unfold payloads. induction vs as [|v vs IH]; cbn; [reflexivity|].
+  destruct v; cbn; try discriminate. intros H. apply andb_true_iff in H. destruct H as [_ H].
+  rewrite IH by exact H. reflexivity.
 Qed.
 
 Lemma strs_app a b : strs (a ++ b) = strs a ++ strs b.
@@ -496,15 +517,37 @@ Section Key.
       + apply (same_types_In _ vs); [exact Hs|]. apply last_In, Hne.
       + rewrite typed_num by discriminate. rewrite (typed_num f k (vs ++ fr) Hne').
         rewrite last_rechunk by exact Hne. apply req_refl.
-    - rewrite (typed_other f tag vs Hne Hs).
+    - destruct (ufn tag) as [g|] eqn:Hu.
+      { (* registered by the application: the law is the function's own *)
+        destruct vs as [|v [|w l]]; [congruence| |].
+        - cbn [concat_typed]. split; [apply (same_types_In _ [v]); [exact Hs|now left]|]. apply req_refl.
+        - rewrite (typed_user f tag g v w l Hu).
+          destruct fr as [|y fr].
+          + rewrite app_nil_r. rewrite (typed_user f tag g v w l Hu).
+            destruct (g (payloads (v :: w :: l))) as [c| |]; cbn [res_map]; [|reflexivity|reflexivity].
+            split; [reflexivity|]. cbn [concat_typed]. reflexivity.
+          + change ((v :: w :: l) ++ y :: fr) with (v :: w :: (l ++ y :: fr)).
+            rewrite (typed_user f tag g v w (l ++ y :: fr) Hu).
+            change (v :: w :: (l ++ y :: fr)) with ((v :: w :: l) ++ y :: fr). rewrite payloads_app.
+            assert (Hlen : 2 <= List.length (payloads (v :: w :: l))).
+            { rewrite (payloads_length tag) by exact Hs. cbn. lia. }
+            assert (Hy : payloads (y :: fr) <> []).
+            { cbn in Hr. destruct y; cbn in Hr; discriminate. }
+            pose proof (ulaw_rechunk tag g (payloads (v :: w :: l)) (payloads (y :: fr)) Hu Hlen Hy) as H.
+            destruct (g (payloads (v :: w :: l))) as [c| |]; cbn [res_map].
+            * split; [reflexivity|]. rewrite (typed_user f tag g (COther tag c) y fr Hu).
+              apply req_res_map. cbn [payloads flat_map app] in *. exact H.
+            * apply fails_res_map. exact H.
+            * apply fails_res_map. exact H. }
+      rewrite (typed_other f tag vs Hu Hne Hs).
       pose proof (single_nonzero_rechunk (COther tag 0) vs fr eq_refl) as H.
-      rewrite (typed_other f tag (vs ++ fr) Hne' Hs').
+      rewrite (typed_other f tag (vs ++ fr) Hu Hne' Hs').
       destruct (single_nonzero (COther tag 0) vs) as [v| |]; [|exact H|exact H].
       destruct H as [Hv Heq].
       assert (Hty : dyn_ty v = Some (TOther tag)).
       { destruct Hv as [->|Hin]; [reflexivity|]. apply (same_types_In _ vs); assumption. }
       split; [exact Hty|].
-      rewrite typed_other; [|discriminate|].
+      rewrite typed_other; [|exact Hu|discriminate|].
       + rewrite Heq. apply req_refl.
       + rewrite (same_types_cons _ _ _ Hty). exact Hr.
     - unfold concat_typed.
@@ -738,3 +781,5 @@ Proof.
     + apply (dyn_ty_nonnil c t), Hty, Hc.
     + apply Hnn, in_or_app. now right.
 Qed.
+
+End User.
